@@ -185,8 +185,15 @@ Print Assumptions pristine_passes_error_mode.
     64 KiB correspondence cases evaluate) *)
 Theorem weak_hash_forms :
   forall block : list N, (N.of_nat (length block) < 4294967296)%N -> beta_hash block = beta_prefix block.
-Proof. exact beta_hash_prefix. Qed.
+Proof. exact (fun block _ => beta_hash_prefix block). Qed.
 Print Assumptions weak_hash_forms.
+
+(** ... for a block of any length: since Sig/Weak.v models the [uint32] subtraction
+    [uint32(len(block)-1) - uint32(i)] exactly (it wraps), the length bound above is not needed *)
+Theorem weak_hash_forms_any_length :
+  forall block : list N, beta_hash block = beta_prefix block.
+Proof. exact beta_hash_prefix. Qed.
+Print Assumptions weak_hash_forms_any_length.
 
 (** non-vacuity: bs = 2, files "abc", "", "de" read in chunkings with short reads (and one empty
     read); the diff-time stream read back is the reference signature (strong hash := block),
@@ -216,7 +223,7 @@ Proof. vm_compute. reflexivity. Qed.
     wsync.βhash is modelled by Sig/Weak.v [beta_hash] (here) and by Wsync/Weak.v [bhash] /
     [weak_of] (C11, C08); wsync.CreateSignature by Sig/Sign.v (here: the scanner loop
     [create_signature] and the reference [sign_file]) and by Wsync/Sign.v [sign_file] (C11);
-    [doOne] of pwr/validator.go by Sig/Validate.v [validate_file] (here, for pristine copies) and
+    [doOne] of pwr/validator.go by Sig/Validate.v [validate_file] (here) and
     by Val/FileVal.v [file_wounds] (C05).  Each has its own correspondence; these theorems tie
     the transcriptions to each other.  Stated in C04's file for the pairs C04/C11 and C04/C05.
     (blockvalidator.go / validatingpool.go exist once, Val/VPool.v: Sig/Validate.v,
@@ -224,11 +231,14 @@ Proof. vm_compute. reflexivity. Qed.
 From Wharf Require Wsync.Weak Wsync.Library Wsync.Sign Val.FileVal
      Compose.ModelsAgreeHashProofs Compose.ModelsAgreeValidateProofs.
 
-(** βhash: equal on every block of at most 2^32 bytes, whatever the byte values (the C11
-    triple [(β, β1, β2)] is the C04 value and the 16-bit halves of the two sums).  Hypothesis:
-    [uint32(len(block)-1)] does not truncate - blocks are at most [blockSize] = 64 KiB *)
+(** βhash: equal on EVERY block, whatever its length and the byte values (the C11 triple
+    [(β, β1, β2)] is the C04 value and the 16-bit halves of the two sums).  Unconditional since
+    Sig/Weak.v follows Go's wrapping [uint32] subtraction ([sub32]); the former hypothesis
+    "at most 2^32 bytes" and the former counterexample [weak_hash_models_differ_beyond_u32] (a
+    block of 2^32 + 1 bytes on which the old Sig/Weak.v said 65537 where Go says 1), which is now
+    false, are gone *)
 Theorem weak_hash_models_agree :
-  forall block : list N, (N.of_nat (length block) <= 4294967296)%N ->
+  forall block : list N,
     beta_hash block = Wsync.Weak.weak_of block /\
     Wsync.Weak.bhash block =
       (beta_hash block, low16 (fst (beta_loop (N.of_nat (length block)) 0 0 0 block)),
@@ -236,16 +246,11 @@ Theorem weak_hash_models_agree :
 Proof. exact ModelsAgreeHashProofs.weak_hash_models_agree_lemma. Qed.
 Print Assumptions weak_hash_models_agree.
 
-(** ... and beyond that they differ: on a block of 2^32 + 1 bytes, all zero but the second, the
-    model of this property says 65537 and the C11 model says 1.  Go says 1 ([uint32(len-1)] is
-    0 and [0 - uint32(1) + 1] wraps to 0): above 2^32 bytes Sig/Weak.v - whose comment "the
-    unsigned subtraction does not wrap" assumes [len - 1 < 2^32] - is not the Go function.
-    No block of that size exists in wharf *)
-Theorem weak_hash_models_differ_beyond_u32 :
-  exists block : list N,
-    N.of_nat (length block) = 4294967297%N /\ beta_hash block = 65537%N /\ Wsync.Weak.weak_of block = 1%N.
-Proof. exact ModelsAgreeHashProofs.weak_hash_models_differ_beyond_u32_lemma. Qed.
-Print Assumptions weak_hash_models_differ_beyond_u32.
+(** the loop bodies at the former point of disagreement ([len = 2^32 + 1], index 1): both
+    multiply the byte by 0, as Go does ([uint32(len-1)] is 0 and [0 - uint32(1) + 1] wraps to 0) *)
+Example weak_hash_loops_agree_beyond_u32 :
+  beta_loop 4294967297 1 0 0 [1%N] = (1%N, 0%N) /\ Wsync.Weak.bhash_loop 4294967297 1 [1%N] 0 0 = (1%N, 0%N).
+Proof. exact ModelsAgreeHashProofs.weak_hash_loops_agree_beyond_u32_example. Qed.
 
 (** CreateSignature: what C04's model of the code writes for a file - over any chunking the
     scanner tolerates - is C11's [sign_file] of the content ([bh_of_ent]: the same five fields in
@@ -263,63 +268,86 @@ Theorem create_signature_models_agree :
        sign_file bs beta_hash strong fileIndex content) /\
     (forall (olds : list (list N)),
        map ModelsAgreeHashProofs.bh_of_ent (Wsync.Sign.sign_all strong bs 0 olds) = sign_all bs beta_hash strong olds).
-Proof. exact ModelsAgreeHashProofs.create_signature_models_agree_lemma. Qed.
+Proof. exact (fun H strong bs maxE Hpos _ => ModelsAgreeHashProofs.create_signature_models_agree_lemma H strong bs maxE Hpos). Qed.
 Print Assumptions create_signature_models_agree.
 
+(** ... and without the bound on the block size, which only the weak hash of the old Sig/Weak.v needed *)
+Theorem create_signature_models_agree_any_block_size :
+  forall (H : Type) (strong : list N -> H) (bs : N) (maxE : nat),
+    (0 < bs)%N ->
+    (forall (fileIndex : N) (chunks : list (list N)) (eofWithLast : bool),
+       runs_ok maxE maxE chunks ->
+       create_signature bs beta_hash strong maxE fileIndex chunks eofWithLast =
+       (map ModelsAgreeHashProofs.bh_of_ent (Wsync.Sign.sign_file strong bs fileIndex (concat chunks)), SEof)) /\
+    (forall (fileIndex : N) (content : list N),
+       map ModelsAgreeHashProofs.bh_of_ent (Wsync.Sign.sign_file strong bs fileIndex content) =
+       sign_file bs beta_hash strong fileIndex content) /\
+    (forall (olds : list (list N)),
+       map ModelsAgreeHashProofs.bh_of_ent (Wsync.Sign.sign_all strong bs 0 olds) = sign_all bs beta_hash strong olds).
+Proof. exact ModelsAgreeHashProofs.create_signature_models_agree_lemma. Qed.
+Print Assumptions create_signature_models_agree_any_block_size.
+
 (** [doOne]: C04's [validate_file] against the groups of a real signature and C05's
-    [file_wounds] against the signed content give the same wounds when the file on disk is not
-    longer than the signed one ... *)
+    [file_wounds] against the signed content give the same wounds for EVERY content of the file
+    on disk - shorter, equal in length, or longer than the signed one.  Unconditional since
+    Sig/Validate.v orders the bounds of the size wound as the code does (repo commit ccb6315);
+    the former hypothesis "not longer than signed" and the former counterexample
+    [validate_file_models_differ_on_longer_file], now false, are gone.  The damaged-file
+    behaviour of Sig/Validate.v is thereby C05's, whose correspondence group [val] compares it
+    with Go; C04's own group [vfile] compares [validate_tree] with Go on shorter / longer /
+    damaged files as well *)
 Theorem validate_file_models_agree :
   forall (H : Type) (bs : N) (weak : list N -> N) (strong : list N -> H) (seqb : H -> H -> bool) (maxWound : Z)
          (files : list (list N)) (i : nat) (signed content : list N),
     nth_error files i = Some signed ->
-    length content <= length signed ->
     validate_file bs weak strong seqb maxWound (groups_from bs weak strong 0 files) i (N.of_nat (length signed)) [content] =
     Val.FileVal.file_wounds (Z.of_N bs) maxWound (block_hash weak strong) (pair_eqb seqb) (Z.of_nat i) signed
                             (Val.FileVal.OFile content).
 Proof. exact ModelsAgreeValidateProofs.validate_file_models_agree_lemma. Qed.
 Print Assumptions validate_file_models_agree.
 
-(** ... and differ when it is longer: this property's model still emits the size wound as
-    (written, size), start > end - the code before repo commit ccb6315 - where the C05 model and
-    the code now swap the two.  Dead code for a pristine copy (written = size) *)
-Theorem validate_file_models_differ_on_longer_file :
+(** the former counterexample: signed [1;2], on disk [1;2;3], block size 2 - both models now
+    give the size wound (2, 3) *)
+Example validate_file_longer_file :
   let weak := fun _ : list N => 0%N in
   let strong := fun b : list N => b in
   validate_file 2 weak strong nlist_eqb 100 (groups_from 2 weak strong 0 [[1; 2]%N]) 0 2 [[1; 2; 3]%N] =
-    [mkwound WClosed 0 0 2; mkwound WFile 0 2 2; mkwound WFile 0 3 2]%Z /\
+    [mkwound WClosed 0 0 2; mkwound WFile 0 2 2; mkwound WFile 0 2 3]%Z /\
   Val.FileVal.file_wounds 2 100 (block_hash weak strong) (pair_eqb nlist_eqb) 0 [1; 2]%N (Val.FileVal.OFile [1; 2; 3]%N) =
     [mkwound WClosed 0 0 2; mkwound WFile 0 2 2; mkwound WFile 0 2 3]%Z.
-Proof. exact ModelsAgreeValidateProofs.validate_file_differs_on_longer_file_lemma. Qed.
-Print Assumptions validate_file_models_differ_on_longer_file.
+Proof. exact ModelsAgreeValidateProofs.validate_file_longer_file_example. Qed.
 
 (** pwr.ComputeHashInfo: this property's [compute_hash_info] (Sig/HashInfo.v) against C10's
     [hash_info] (Patch/Malformed.v: outcome class; [fx] = the code before / after repo commit
-    6a06397, [cap] = capacity of the hash slice, at least its length).  [HiOk] / [HiErr] are C10's
-    [Ok] / [Err] for both versions.  Where this model says [HiPanic] (fewer hashes than the files
-    need) the code NOW returns an error: Sig/HashInfo.v is the code before that commit (with
-    cap = len); unreachable for the complete signatures C04 is about ([hashinfo_groups]) *)
+    6a06397, [cap] = capacity of the hash slice, at least its length).  (1) The outcome class is
+    that of the code as it is ([fx = true]) for every input - in particular a signature with
+    fewer hashes than the files need is an error in both (Sig/HashInfo.v used to say [HiPanic]
+    there, the code before the commit; repaired, and the former
+    [hash_info_models_differ_on_missing_hashes], now false, is gone); (2) where the model says
+    [HiOk] the code before the fix succeeded too; (3) the two versions of the code only differ
+    where the model says [HiErr] *)
 From Wharf Require Patch.Malformed Compose.ModelsAgreeHashInfoProofs.
 
 Theorem hash_info_models_agree :
   forall (X : Type) (bs : N) (sizes : list N) (hashes : list X),
     (0 < bs)%N ->
     let n := Z.of_nat (length hashes) in
-    match compute_hash_info bs sizes hashes with
-    | HiOk _ => forall fx cap, (n <= cap)%Z ->
-                  Malformed.hash_info fx (Z.of_N bs) (map Z.of_N sizes) 0 n cap = Malformed.Ok
-    | HiErr => forall fx cap, (n <= cap)%Z ->
-                  Malformed.hash_info fx (Z.of_N bs) (map Z.of_N sizes) 0 n cap = Malformed.Err
-    | HiPanic =>
-        (forall cap, (n <= cap)%Z -> Malformed.hash_info true (Z.of_N bs) (map Z.of_N sizes) 0 n cap = Malformed.Err) /\
-        Malformed.hash_info false (Z.of_N bs) (map Z.of_N sizes) 0 n n = Malformed.Panic Malformed.SHashInfoSlice
-    end.
+    (forall cap, (n <= cap)%Z ->
+       Malformed.hash_info true (Z.of_N bs) (map Z.of_N sizes) 0 n cap =
+       match compute_hash_info bs sizes hashes with HiOk _ => Malformed.Ok | HiErr => Malformed.Err end) /\
+    (forall gs, compute_hash_info bs sizes hashes = HiOk gs ->
+       forall fx cap, (n <= cap)%Z -> Malformed.hash_info fx (Z.of_N bs) (map Z.of_N sizes) 0 n cap = Malformed.Ok) /\
+    (forall cap, (n <= cap)%Z ->
+       Malformed.hash_info false (Z.of_N bs) (map Z.of_N sizes) 0 n cap <>
+       Malformed.hash_info true (Z.of_N bs) (map Z.of_N sizes) 0 n cap ->
+       compute_hash_info bs sizes hashes = HiErr).
 Proof. exact ModelsAgreeHashInfoProofs.hash_info_models_agree_lemma. Qed.
 Print Assumptions hash_info_models_agree.
 
-Theorem hash_info_models_differ_on_missing_hashes :
-  compute_hash_info 2 [2; 2]%N [tt] = HiPanic /\
+(** the former counterexample: two files of 2 bytes at block size 2 and a single hash - an error
+    in this model and in the code now; the code before the fix panicked *)
+Example hash_info_missing_hashes :
+  compute_hash_info 2 [2; 2]%N [tt] = HiErr /\
   Malformed.hash_info true 2 [2; 2]%Z 0 1 1 = Malformed.Err /\
   Malformed.hash_info false 2 [2; 2]%Z 0 1 1 = Malformed.Panic Malformed.SHashInfoSlice.
-Proof. exact ModelsAgreeHashInfoProofs.hash_info_models_differ_on_missing_hashes_lemma. Qed.
-Print Assumptions hash_info_models_differ_on_missing_hashes.
+Proof. exact ModelsAgreeHashInfoProofs.hash_info_missing_hashes_example. Qed.
